@@ -109,7 +109,13 @@ def _entries(case):
                 spec.append([n + "/" + ext, "f", _sc_text(sc)])
         else:
             if it["kind"] == "mbox" or it.get("_mbox_as_file"):
-                content = sites.mbox_text(["subject one", "subject two"])
+                # messages whose flattened forms differ: a header line longer than 78 columns, an 8-bit body with a
+                # declared charset, a raw 8-bit header value
+                content = sites.mbox_text(["subject one", "subject two"]) + (
+                    sites.FROM_LINE + "From: alice@example.com\nSubject: " + "a very long subject line " * 6 + "end\n\nbody three\n\n" +
+                    sites.FROM_LINE + "From: alice@example.com\nSubject: four\nMIME-Version: 1.0\nContent-Type: text/plain; charset=iso-8859-1\n"
+                    "Content-Transfer-Encoding: 8bit\n\ncaf\xe9 cr\xe8me\n\n" +
+                    sites.FROM_LINE + "From: Ren\xe9 <rene@example.com>\nSubject: five \xe9\n\nbody five\n\n")
             elif it["kind"] == "html":
                 content = "<html><head><title>Title %d</title></head></html>\n" % it["size"]
             else:
@@ -321,6 +327,17 @@ def check_case(case, ctx):
                 mine = [l for l in plain if l.split(b"\t")[1:2] == [selb]]
                 if mine and its[0].get("infoline") != mine[0]:
                     fails.append(Fail("info-vs-menu:bang", "! on %r: +INFO %r differs from the parent menu line %r" % (selb, its[0].get("infoline"), mine[0])))
+            if it["kind"] == "mbox" and not it.get("_mbox_as_file"):
+                # the messages of the mailbox (virtual items): an announced length is the number of bytes that follow
+                for n_ in range(1, 6):
+                    msel = selb + b"|/MBOX-MESSAGE/%d" % n_
+                    rq = drive.serve(cfg, clients.encode("gplus", msel))
+                    pq = clients.parse_response("gplus", rq.response)
+                    ctx.count("message_plus_requests")
+                    if not pq.ok:
+                        fails.append(Fail("plus-failed:message", "+ on %r failed: %r" % (msel, rq.response[:80])))
+                    elif pq.length is not None and pq.length != len(pq.body):
+                        fails.append(Fail("plus-length:message", "+ on %r announced %d, sent %d bytes" % (msel, pq.length, len(pq.body))))
             if it["kind"] in ("txt", "bin", "html"):
                 rq = drive.serve(cfg, clients.encode("gplus", selb))
                 pq = clients.parse_response("gplus", rq.response)
